@@ -352,6 +352,9 @@ def main(check, argv=None):
         st = E.Stats()
         for r in results:
             st.add(r['stats'])
+        if os.environ.get('VERIF_TIMING'):
+            for r in sorted(results, key=lambda r: -r['wall'])[:12]:
+                print('  slow: %-40s %.1fs paths=%d' % (r['name'], r['wall'], r['stats']['paths']))
         print('%s %s: scenarios=%d paths=%d decisions=%d queries=%d solver=%.1fs wall=%.1fs violations=%d known=%d rc=%d' % (
             check.id, tier, len(results), st.paths, st.decisions, st.queries, st.solver_s, time.time() - t0,
             len(violations), len(known_hit), rc))
